@@ -14,7 +14,10 @@ def run(ctx):
     codec.design_model(ctx)
     types = codec.universe(ctx, ctx.pick(120, 1500), ctx.pick(1, 2))
     codec.mark_services(types)
-    camp = codec.Campaign(ctx, types, codec.std_specs(ctx, variants=not ctx.quick), with_py=True, batch=ctx.pick(40, 60))
+    specs = codec.std_specs(ctx, variants=not ctx.quick)
+    if ctx.quick:  # the little-endian option set switches on the whole-storage fast paths: what they write must still fit the advertised size
+        specs.append(codec.spec("c", "c/little", {"target_endianness": "little"}, frac=0.5))
+    camp = codec.Campaign(ctx, types, specs, with_py=True, batch=ctx.pick(40, 60))
     camp.build()
     codec.report_gen_failures(camp, ctx, PROP)
     camp.meta_events(range(len(types)))
@@ -29,6 +32,7 @@ def run(ctx):
     camp.ser_events(vcases, buf_of=buf_of)
     camp.py = camp.py_saved
     metadata(ctx)
+    regeneration(ctx)
     rej = camp.judge()
     codec.report(camp, ctx, rej, PROP, also=lambda clause, info: clause in ("ser.rc", "ser.size", "ser.guard") and info.get("ev") == "ser")
     codec.count_distinct(camp, ctx)
@@ -39,6 +43,78 @@ def run(ctx):
                        "invalid objects into buffers of size need, need-1, need+1, 0 (guard bytes checked); distinct = (event, target, type shape, class, hash)")
     ctx.assumptions += ["TLC + DsdlWire size arithmetic is the oracle"]
     ctx.not_exercised("C++ does not export names / array capacities and Python exports neither buffer size, names nor capacities: only what a target exports is compared")
+
+
+def regeneration(ctx, only=None):
+    """histories: revision 1 of a namespace is generated, then ONLY a nested type's definition is edited (its container's file stays untouched
+    and older than the generated output) and the namespace is generated again into the same directory.  The constants exported for the
+    CONTAINER by the regenerated output must be those of revision 2, and a buffer of the advertised size must suffice for its largest value."""
+    import copy
+    import os
+    import time
+    from .. import tlc
+    from ..harness_c import CTarget
+    from ..harness_py import generate
+
+    d = codec.dsdl
+    S, U, I, B, VA, FA, UN = d.S, d.U, d.I, d.B, d.VA, d.FA, d.UN
+    # (inner revision 1, inner revision 2, container built around the inner type)
+    shapes = [
+        (S([VA(U(8), 4)]), S([VA(U(8), 60)]), lambda i: S([U(8), i, B()])),
+        (S([U(8)]), S([U(8), I(33), VA(B(), 9)]), lambda i: S([FA(i, 2)])),
+        (UN([U(8), I(16)]), UN([U(8), FA(U(32), 5)]), lambda i: S([VA(i, 2), U(3)])),
+        (S([U(8)], sealed=False, slack=1), S([U(8)], sealed=False, slack=40), lambda i: UN([i, U(16)])),
+        (S([VA(U(8), 4)]), S([VA(U(8), 2)]), lambda i: S([B(), S([i, U(8)])])),   # two levels, and the bounds SHRINK
+    ]
+    records, stim = [], {}
+    for k, (v1, v2, wrap) in enumerate(shapes):
+        if only is not None and only != k:
+            continue
+        outer1, outer2 = wrap(copy.deepcopy(v1)), wrap(copy.deepcopy(v2))
+
+        def first_revision(tg, nsdir, out, outer1=outer1):
+            ts1 = d.TypeSet(tg.ts.ns)
+            ts1.add(copy.deepcopy(outer1))
+            rev2 = {p.name: p.read_text() for p in nsdir.glob("*.dsdl")}
+            ts1.write(nsdir.parent)
+            rev1 = {p.name: p.read_text() for p in nsdir.glob("*.dsdl")}
+            if set(rev1) != set(rev2):
+                raise codec.MachineryFailure("regeneration history: the two revisions do not have the same files")
+            generate("c", nsdir, out, language_options=tg.options)
+            old = time.time() - 3600
+            for p in nsdir.glob("*.dsdl"):
+                os.utime(p, (old, old))  # every definition is older than the generated output ...
+            changed = [n for n in rev2 if rev2[n] != rev1[n]]
+            for n in changed:
+                (nsdir / n).write_text(rev2[n])  # ... and then the nested type (only) is edited
+            tg.history = {"changed": changed, "unchanged": sorted(set(rev2) - set(changed))}
+
+        for name, options in (("c/any", {}), ("c/little", {"target_endianness": "little"})):
+            tg = CTarget(ctx.scratch, [copy.deepcopy(outer2)], options=options, tag="regen%d%s_" % (k, name[2]), before_generate=first_revision)
+            if len(tg.history["changed"]) != 1 or not tg.history["unchanged"]:
+                raise codec.MachineryFailure("regeneration history %d: expected exactly the nested definition to change: %r" % (k, tg.history))
+            t = tg.types[0]
+            need = d.max_bits_body(t) // 8
+            res = tg.run([tg.cmd_meta(1, 0), tg.cmd_ser(2, 0, d.boundary_value(t, 1), need, prefill=0xA5)])
+            m, r = res.get(1), res.get(2)
+            if not m or "crash" in m or not r or "crash" in r:
+                ctx.violation("C05|c|regen.noret", "the regenerated code did not answer: %r" % ((m or r or {}).get("crash", "")[:300],), {"regen": k, "target": name})
+                continue
+            rid = len(records) + 1
+            records.append({"id": rid, "case": 2 * 10 ** 7 + rid, "ev": "meta", "t": d.strip(t), "extent": m["extent"], "bufsize": m["bufsize"]})
+            stim[rid] = (k, name, "meta")
+            rid += 1
+            records.append({"id": rid, "case": 2 * 10 ** 7 + rid, "ev": "ser", "L": "c", "t": d.strip(t), "v": d.encode(t, d.boundary_value(t, 1), "c"), "buf": need, "err": r["err"],
+                            "size": r["size"], "bytes": list(bytes.fromhex(r["bytes"])), "guard": r["guard"], "kinds": True, "det": True})
+            stim[rid] = (k, name, "ser")
+            ctx.count(2)
+            ctx.distinct("regen|%d|%s" % (k, name))
+    rej = tlc.validate_traces(ctx, "CodecTrace", records, batch=200)
+    for rid, clause in sorted(rej.items()):
+        k, name, ev = stim[rid]
+        ctx.violation("C05|c|regen|%s" % clause, "after editing only the nested type and regenerating into the same directory, %s of the CONTAINER is wrong (%s, history %d, %s)"
+                      % ("an exported size constant" if ev == "meta" else "serialization into a buffer of the advertised size", clause, k, name), {"regen": k, "target": name})
+    ctx.cov["regeneration_histories"] = len(records) // 2
 
 
 def metadata(ctx, only=None):
@@ -90,6 +166,9 @@ def _collect(defs, res, lang, tag, records, stim):
 
 
 def replay(ctx, case):
+    if "regen" in case:
+        regeneration(ctx, only=case["regen"])
+        return
     if case.get("ev") == "metad":
         metadata(ctx, only=case["target"])
         return
